@@ -1,10 +1,11 @@
 """C02 - connection lifecycle is well-formed and never hangs under any link fault."""
 import ast
 
-from ..astutil import catches_everything, dotted, effective, handler_names, method_call
+from ..astutil import aug_form, catches_everything, dotted, effective, handler_names, method_call
 from ..callgraph import CallGraph, fid
 from ..cfg import CFG, cfg_of, fact_key, norm, walk_own, _own_exprs
 from ..locks import regions
+from ..model import AnchorError
 from ..mutate import B, M
 from .c03 import fetch_guard_rules
 
@@ -28,7 +29,7 @@ EXPLANATION = (
     'attribute that other threads null (Crazyflie.link); R10 the dispatcher idles while there is no link. Bounded *time* and the clause '
     '"no connected after the first disconnected" are not decided.')
 ASSUMPTIONS = ['user callbacks are opaque and assumed not to block on library locks', 'a timed join/wait is treated as non-blocking for deadlock purposes']
-FLOORS = {'R11': 4, 'R12': 4, 'R1': 4, 'R2': 9, 'R3': 7, 'R4': 4, 'R5': 5, 'R6': 1, 'R7': 1, 'R8': 4, 'R9': 3, 'R10': 2}
+FLOORS = {'R11': 4, 'R12': 4, 'R1': 4, 'R2': 13, 'R3': 7, 'R4': 4, 'R5': 5, 'R6': 1, 'R7': 1, 'R8': 4, 'R9': 3, 'R10': 2}
 
 
 def blocking_calls(func):
@@ -101,6 +102,8 @@ def check(ctx):
     body = [norm(s) for s in effective(ic.node.body)]
     ctx.inst('R2', ic, 'first-packet', body == ['self.state = State.CONNECTED', 'self.link_established.call(self.link_uri)', 'self.packet_received.remove_callback(self._check_for_initial_packet_cb)'],
              'the first packet sets CONNECTED, signals link_established once and unhooks itself; body %s' % body)
+
+    all_updated_rules(ctx)
 
     # ---- R3 ------------------------------------------------------------------------
     le = K.method('_link_error_cb')
@@ -316,6 +319,93 @@ def check(ctx):
              not any(n.kind in ('return', 'break') for n in g.nodes), 'the dispatcher never leaves its loop')
 
 
+PM = 'cflib/crazyflie/param.py'
+
+
+def all_updated_rules(ctx):
+    """R2 (fully_connected only once every parameter has a value): Param signals all_updated once per session and only when every
+    (group, name) of the TOC is a key of the value table."""
+    P = ctx.model.cls(PM, 'Param')
+    chk = P.method('_check_if_all_updated')
+    up = P.method('_param_updated')
+    node = chk.node
+    reads_values = any(norm(a) == 'self.values' for a in ast.walk(node))
+    rets = [r for r in walk_own(node) if isinstance(r, ast.Return)]
+    if reads_values:
+        loops = [l for l in walk_own(node) if isinstance(l, ast.For)]
+        ok, why = False, ''
+        if len(loops) == 2 and not any(isinstance(x, (ast.Break, ast.Continue, ast.While)) for x in walk_own(node)):
+            outer, inner = sorted(loops, key=lambda l: l.lineno)
+            g = cfg_of(chk)
+            inner_in_outer = any(x is inner for s in outer.body for x in walk_own(s))
+            ot = norm(outer.iter) in ('self.toc.toc', 'self.toc.toc.keys()', 'list(self.toc.toc)') and isinstance(outer.target, ast.Name)
+            G = norm(outer.target)
+            it = norm(inner.iter) in ('self.toc.toc[%s]' % G, 'self.toc.toc[%s].keys()' % G) and isinstance(inner.target, ast.Name)
+            N = norm(inner.target)
+            true_rets = [r for r in rets if not (isinstance(r.value, ast.Constant) and r.value.value is False)]
+            only_tail = len(true_rets) == 1 and true_rets[0] in node.body and isinstance(true_rets[0].value, ast.Constant) and true_rets[0].value.value is True
+            inner_n = [n for n in g.nodes if n.kind == 'for' and n.ast is inner]
+            k1, k2 = fact_key('%s in self.values' % G), fact_key('%s in self.values[%s]' % (N, G))
+            # after the inner loop header every fall-through to the next element must have seen both memberships
+            body_ok = False
+            if inner_n and inner_in_outer and ot and it:
+                hdr = inner_n[0]
+                body_ok = k1 in g.fact_keys_at(hdr)
+                # the inner body consists of the membership test only (plus noise): the false edge of `N not in values[G]` returns False
+                eff = effective(inner.body)
+                body_ok = body_ok and len(eff) == 1 and isinstance(eff[0], ast.If) and fact_key(norm(eff[0].test)) == (k2[0], not k2[1]) and \
+                    [norm(x) for x in effective(eff[0].body)] == ['return False'] and not eff[0].orelse
+            ok = bool(only_tail and body_ok)
+            why = 'nested walk over self.toc.toc / self.toc.toc[%s]; a missing group or name returns False, True only after both loops' % G
+        elif not loops and len(rets) == 1 and isinstance(rets[0].value, ast.Call) and norm(rets[0].value.func) == 'all' and rets[0].value.args and \
+                isinstance(rets[0].value.args[0], (ast.GeneratorExp, ast.ListComp)):
+            ge = rets[0].value.args[0]
+            gens = [(norm(c.target), norm(c.iter)) for c in ge.generators]
+            if len(gens) == 2 and gens[0][1] == 'self.toc.toc' and gens[1][1] == 'self.toc.toc[%s]' % gens[0][0] and not any(c.ifs for c in ge.generators):
+                G, N = gens[0][0], gens[1][0]
+                conj = {fact_key(norm(v)) for v in (ge.elt.values if isinstance(ge.elt, ast.BoolOp) and isinstance(ge.elt.op, ast.And) else [ge.elt])}
+                ok = conj == {fact_key('%s in self.values' % G), fact_key('%s in self.values[%s]' % (N, G))}
+                why = 'all(... for %s in toc for %s in toc[%s]) over both memberships' % (G, N, G)
+            else:
+                raise AnchorError('_check_if_all_updated: unrecognised all(...) form')
+        elif len(loops) == 1 and isinstance(loops[0].target, ast.Name) and norm(loops[0].iter) == 'self.toc.toc' and \
+                not any(isinstance(x, ast.Subscript) and norm(x.value) in ('self.values', 'self.toc.toc') for s_ in loops[0].body for x in ast.walk(s_)):
+            ok, why = False, 'only the groups of the TOC are compared with the value table; the names inside a group are never looked at'
+        else:
+            raise AnchorError('_check_if_all_updated: unrecognised form of the TOC-versus-values walk')
+        ctx.inst('R2', chk, 'all-updated-covers-toc', ok, why)
+    else:
+        attrs = sorted({norm(a) for a in ast.walk(node) if isinstance(a, ast.Attribute) and norm(a).startswith('self.') and not norm(a).startswith('self.toc')
+                        and isinstance(a.value, ast.Name)})
+        bad = []
+        for a in attrs:
+            for f in P.methods.values():
+                g = cfg_of(f)
+                for n in g.nodes:
+                    if n.kind == 'stmt' and aug_form(n.ast) and aug_form(n.ast)[0] == a:
+                        if not any((not pol) and ' in self.values' in txt for txt, pol in g.fact_keys_at(n)):
+                            bad.append('%s:%d %s' % (f.name, n.line, norm(n.ast)))
+        ctx.inst('R2', chk, 'all-updated-covers-toc', bool(attrs) and not bad,
+                 'completeness is decided from %s, not from membership of every TOC entry in self.values; it advances for values of parameters that already have one: %s'
+                 % (attrs or 'nothing', bad or 'no guarded increment found'))
+    g = cfg_of(up)
+    fire = g.find(lambda q: method_call(q, 'call') and norm(q.func.value) == 'self.all_updated')
+    sites = [f.name for f in P.methods.values() for c in walk_own(f.node) if method_call(c, 'call') and norm(c.func.value) == 'self.all_updated']
+    ok = sites == ['_param_updated'] and len(fire) == 1
+    if ok:
+        ks = g.fact_keys_at(fire[0][0])
+        setn = [n for n in g.nodes if n.kind == 'stmt' and isinstance(n.ast, ast.Assign) and norm(n.ast.targets[0]) == 'self.is_updated' and norm(n.ast.value) == 'True']
+        ok = fact_key('self._check_if_all_updated()') in ks and fact_key('self.is_updated', False) in ks and len(setn) == 1 and g.dominates(setn[0], fire[0][0])
+    ctx.inst('R2', up, 'all-updated-once-when-complete', ok, 'all_updated fires only from _param_updated, guarded by _check_if_all_updated() and not is_updated, after is_updated = True; sites %s' % sites)
+    st = [n for n in g.nodes if n.kind == 'stmt' and isinstance(n.ast, ast.Assign) and isinstance(n.ast.targets[0], ast.Subscript) and norm(n.ast.targets[0].value).startswith('self.values[')]
+    ok = len(st) == 1 and len(fire) == 1 and g.dominates(st[0], fire[0][0]) and norm(st[0].ast.targets[0]) == 'self.values[element.group][element.name]'
+    ctx.inst('R2', up, 'value-stored-before-completeness-test', ok, 'the received value is stored under (group, name) of the element found by id before completeness is tested')
+    cr = P.method('_connection_requested')
+    rs = {norm(t): norm(s.value) for s in walk_own(cr.node) if isinstance(s, ast.Assign) for t in s.targets}
+    ctx.inst('R2', cr, 'new-session-resets-values', rs.get('self.values') == '{}' and rs.get('self.is_updated') == 'False' and rs.get('self.toc') == 'Toc()',
+             'a new connection attempt starts with an empty value table, is_updated False and an empty TOC; resets %s' % rs)
+
+
 BENIGN_CALLS = ('len', 'isinstance', 'tuple', 'list', 'str', 'int', 'print', 'Timer', 'threading.Timer')
 
 
@@ -353,6 +443,11 @@ def protected_join(func, call):
 
 
 VARIANTS = [
+    M('R2', PM, "            for n in self.toc.toc[g]:\n                if n not in self.values[g]:\n                    return False\n", "", 'a group with one value counts as complete'),
+    M('R2', PM, "            if self._check_if_all_updated() and not self.is_updated:", "            if not self.is_updated:", 'all_updated on the first value'),
+    M('R2', PM, "        self.values = {}\n        self._initialized.clear()", "        self._initialized.clear()", 'values survive reconnect'),
+    B(PM, "        for g in self.toc.toc:\n            if g not in self.values:\n                return False\n            for n in self.toc.toc[g]:\n                if n not in self.values[g]:\n                    return False\n\n        return True",
+      "        return all(g in self.values and n in self.values[g] for g in self.toc.toc for n in self.toc.toc[g])", 'all() form of the walk'),
     M('R1', CF, "        self.connection_requested.call(link_uri)\n        self.state = State.INITIALIZED\n        self.link_uri = link_uri\n        try:", "        self.state = State.INITIALIZED\n        self.link_uri = link_uri\n        self.connection_requested.call(link_uri)\n        try:", 'connection_requested not first'),
     M('R1', CF, "        except Exception as ex:  # pylint: disable=W0703\n            # We want to catch every possible exception here and show", "        except IOError as ex:  # pylint: disable=W0703\n            # We want to catch every possible exception here and show", 'narrow open_link handler'),
     M('R2', CF, "        logger.info('Log TOC finished updating')\n", "        logger.info('Log TOC finished updating')\n        self.connected.call(self.link_uri)\n", 'connected from the log TOC callback'),
